@@ -59,16 +59,18 @@ _pub_assume = ['environment = shadow/vk_world.hpp: FIFO executor, virtual-time t
 def _pub_job(name, mode, quick, thorough, reach):
     return dict(name=name, tu='harness/w_pub.cpp', entry='h_pub', engine='B', clock=True, defs={'VK_MODE': mode}, defs_quick={'VK_STEPS': quick, 'VK_REQS': 1}, defs_thorough={'VK_STEPS': thorough, 'VK_REQS': 2}, reach=reach, samples=10)
 P['C01'] = dict(
-    level_text='The real mqtt_client publishes QoS 1/2 messages with symbolic topic/payload bytes, RETAIN and Message Expiry against a broker model whose every reaction (correct ack with any listed code and short form, wrong type, unknown id, inadmissible code, oversize property length, any chunking, connection loss + reconnect) is explored up to the step bound. Monitor: a completion without error implies that the reference decoder found exactly the requested PUBLISH on the wire of some connection and that the broker afterwards sent the final acknowledgement for that id with the reason code the handler received.',
+    level_text='The real mqtt_client publishes QoS 1/2 messages with symbolic topic/payload bytes, RETAIN and Message Expiry against a broker model whose every reaction (correct ack with any listed code and short form, wrong type, unknown id, inadmissible code, oversize property length, any chunking, connection loss + reconnect) is explored up to the step bound. Monitor: a completion without error implies that the reference decoder found exactly the requested PUBLISH on the wire of some connection and that the broker afterwards sent the final acknowledgement for that id with the reason code the handler received, and that the Reason String handed to the handler is the one contained in that PUBACK / PUBCOMP (present or absent, symbolic character).',
     level_note='Bounds: 1 publish of either QoS and 6 steps (quick) / 2 publishes (QoS 2 then QoS 1) and 7 steps (thorough), 1 adversarial packet, 1 reconnect; topics/payloads of 2 bytes (one symbolic each). Stub world replaces sockets/timers/resolver; a write is delivered entirely or not at all.',
     assumptions=_pub_assume,
-    jobs=[_pub_job('publish_truthful', 1, 6, 7, ['puback', 'pubrec', 'pubcomp', 'bad-packet', 'reconnected', 'success-checked', 'early-delivery'])])
+    jobs=[_pub_job('publish_truthful', 1, 6, 7, ['puback', 'pubrec', 'pubcomp', 'bad-packet', 'reconnected', 'success-checked', 'early-delivery', 'ack-with-properties'])])
 P['C02'] = dict(
     level_text='Same exploration as C01 with the no-loss monitor: no accepted, un-cancelled publish completes with a transport error or try_again at any point, and from every explored state a fault-free suffix (broker reachable, answers everything) completes every request. Retransmission with the same packet identifier is checked by C03\'s monitor.',
-    level_note='Bounded liveness only: the suffix is at most 10 rounds; "eventually" beyond it is not claimed. Faults explored: connection reset at quiescent points (with a write in progress failing, or succeeding locally while its bytes are lost), lost acknowledgements, one malformed/unsolicited packet, the broker obtaining a write before the client sees it complete; one or two requests, with and without Receive Maximum 1; the connection dies by reset, by orderly close (eof / broken pipe), by abort, or is noticed by the reader only while a write is in flight (that write ends with operation_aborted when the client closes the old socket). Refused connections and silent brokers are covered in C10/C12.',
+    level_note='Bounded liveness only: the suffix is at most 10 rounds; "eventually" beyond it is not claimed. Faults explored: connection reset at quiescent points (with a write in progress failing, or succeeding locally while its bytes are lost), lost acknowledgements, one malformed/unsolicited packet, the broker obtaining a write before the client sees it complete; one or two requests, with and without Receive Maximum 1; the connection dies by reset, by orderly close (eof / broken pipe), by abort, or is noticed by the reader only while a write is in flight (that write ends with operation_aborted when the client closes the old socket). Job no_silent_loss_failed_attempts: before the client is connected again, one (quick) / two (thorough) attempts fail - TCP connect refused, CONNECT answered with CONNACK 0x88, silent broker until the 5 s timer, name resolution error - and no PUBLISH may appear on a connection whose CONNECT was not accepted.',
     assumptions=_pub_assume,
     jobs=[dict(name='no_silent_loss', tu='harness/w_pub.cpp', entry='h_pub', engine='B', clock=True, defs={'VK_MODE': 2, 'VK_ACK_VARIANTS': 3}, defs_quick={'VK_STEPS': 5, 'VK_REQS': 1, 'VK_DROP': 3}, defs_thorough={'VK_STEPS': 6, 'VK_REQS': 2, 'VK_DROP': 9}, reach=['reconnected', 'all-requests-completed'], samples=10),
           dict(name='no_silent_loss_two_requests', tu='harness/w_pub.cpp', entry='h_pub', engine='B', clock=True, defs={'VK_MODE': 2, 'VK_REQS': 2, 'VK_ACK_VARIANTS': 2}, defs_quick={'VK_STEPS': 5, 'VK_DROP': 0}, defs_thorough={'VK_STEPS': 6, 'VK_DROP': 1}, reach=['reconnected', 'all-requests-completed', 'write-lost-in-flight'], samples=10),
+          dict(name='no_silent_loss_failed_attempts', tu='harness/w_pub.cpp', entry='h_pub', engine='B', clock=True, defs={'VK_MODE': 2, 'VK_REQS': 1, 'VK_ACK_VARIANTS': 1, 'VK_DROP': 0}, defs_quick={'VK_STEPS': 4, 'VK_RFAULT': 1}, defs_thorough={'VK_STEPS': 5, 'VK_RFAULT': 2},
+               reach=['reconnected', 'all-requests-completed', 'attempt-refused', 'connack-refused', 'attempt-timed-out', 'resolve-failed'], samples=10),
           dict(name='no_silent_loss_throttled', tu='harness/w_pub.cpp', entry='h_pub', engine='B', clock=True, defs={'VK_MODE': 2, 'VK_REQS': 2, 'VK_ACK_VARIANTS': 2, 'VK_RM': 1, 'VK_DROP': 2}, defs_quick={'VK_STEPS': 5}, defs_thorough={'VK_STEPS': 6}, reach=['reconnected', 'all-requests-completed'], samples=10)])
 P['C03'] = dict(
     level_text='Same exploration with the wire-history monitor: DUP=0 on the first transmission, every retransmitted PUBLISH byte-identical to the first except DUP, DUP=1 exactly when an earlier transmission was written successfully, same packet identifier, and no PUBLISH for an exchange once its successful PUBREC was consumed (only PUBREL).',
@@ -119,6 +121,8 @@ P['C09'] = dict(
     jobs=[dict(name='disconnect', tu='harness/w_disc.cpp', entry='h_disc', engine='B', clock=True, defs_quick={'VK_STEPS': 5}, defs_thorough={'VK_STEPS': 7},
                reach=['disconnect-on-wire', 'finished', 'write-failed', 'timer-fired', 'never-connected', 'throttled-traffic', 'never-connected-with-queued-request', 'connack-after-call', 'inbound-publish', 'connack-handlers-left-queued', 'timers-tie', 'handshake-in-progress'], samples=10)])
 
+P['C09']['jobs'] += [dict(name='disconnect_properties_at_limit', tu='harness/w_caps.cpp', entry='h_caps_disconnect', engine='B', clock=True, reach=['kept-properties', 'dropped-properties', 'exactly-at-the-limit'], samples=6)]
+
 P['C10'] = dict(
     level_text='On the real mqtt_client with a symbolic configuration (client id, optional user name/password, optional Will with QoS/RETAIN/Will Delay, keep-alive, optional Session Expiry and Receive Maximum) and a request queued before any connection exists: up to 3 broker attempts over the list "a,b", each with every outcome (resolve ok with 1 or 2 endpoints / failing / timing out; per endpoint: success, TCP refused, CONNACK with any listed failure code, three kinds of malformed reply, silence until the 5 s timer; arbitrary reply bytes are the handshake job of C19). Monitors: first write of each connection is exactly one CONNECT that the reference decoder maps back to the configuration with Clean Start 0; nothing else is written and no queued request completes before a successful CONNACK; endpoints then brokers are tried in order; resolve and handshake are raced against a 5000 ms timer; a pause of 500..16500 ms occurs only at wrap-around. Kernels: exponential_backoff::generate for every 64-bit generator state and 0-6 earlier calls; broker-list parsing of generated well-formed lists.',
     level_note='Bounds: 2 broker attempts (quick) / 3 (thorough), each with up to 2 endpoints; configuration content checked with symbolic values in 3 profiles on the first connection (job connect_content), gating/rotation explored with one concrete full configuration (job handshake). DNS, TCP and TLS/WebSocket handshakes are stubs. Job auth_exchange: a configured authenticator (symbolic data bytes): CONNECT carries method and initial data, the challenge of the broker is answered with exactly one AUTH, mismatching method or a failing authenticator abandons the attempt, queued traffic only after CONNACK.',
@@ -143,7 +147,7 @@ P['C12'] = dict(
     level_note='Bounds: K <= 20 s (symbolic), two ping cycles, one reconnect, one traffic pattern besides silence (a QoS 0 publish at K/2 after CONNACK and 1 ms before the second ping is due). Real time is replaced by the virtual clock of the stub timers; transport latency is zero. Job keepalive_arithmetic checks both timer durations right after CONNACK for EVERY 16-bit configured / Server Keep Alive value (no time line).',
     assumptions=_pub_assume[:2] + ['timers fire in deadline order (virtual clock); network events take no time'],
     jobs=[dict(name='keepalive', tu='harness/w_ka.cpp', entry='h_keepalive', engine='B', clock=True, defs_quick={'VK_KMAX': 20}, defs_thorough={'VK_KMAX': 60},
-               reach=['no-keepalive', 'first-ping', 'timeout-reconnect', 'second-ping', 'timeout-after-traffic', 'new-keepalive', 'new-keepalive-zero', 'traffic-before-first-ping', 'traffic-before-second-ping'], samples=10),
+               reach=['no-keepalive', 'first-ping', 'timeout-reconnect', 'second-ping', 'timeout-after-traffic', 'new-keepalive', 'new-keepalive-zero', 'traffic-before-first-ping', 'traffic-before-second-ping', 'keepalive-zero-first', 'new-keepalive-session-resumed'], samples=10),
           dict(name='keepalive_arithmetic', tu='harness/w_ka.cpp', entry='h_ka_arith', engine='B', clock=True, defs_quick={'VK_KMAX': 20}, defs_thorough={'VK_KMAX': 60}, reach=['zero', 'server-keep-alive', 'configured-keep-alive'], samples=6)])
 
 P['C13'] = dict(
@@ -160,17 +164,18 @@ P['C15'] = dict(
     assumptions=_pub_assume[:2],
     jobs=[dict(name='publish_caps', tu=_caps, entry='h_caps_publish', engine='B', clock=True, reach=['rejected-size', 'rejected-qos', 'rejected-retain', 'rejected-alias', 'accepted', 'own-limits-configured'], samples=10),
           dict(name='subscribe_caps', tu=_caps, entry='h_caps_subscribe', engine='B', clock=True, reach=['rejected-shared', 'rejected-wildcard', 'rejected-subid', 'accepted', 'own-limits-configured'], samples=10),
-          dict(name='disconnect_caps', tu=_caps, entry='h_caps_disconnect', engine='B', clock=True, reach=['kept-properties', 'dropped-properties'], samples=6)])
+          dict(name='disconnect_caps', tu=_caps, entry='h_caps_disconnect', engine='B', clock=True, reach=['kept-properties', 'dropped-properties', 'exactly-at-the-limit'], samples=6)])
 P['C16']['jobs'] += [dict(name='request_validation', tu=_caps, entry='h_req_validation', engine='B', clock=True,
                           reach=['subscription-identifier', 'utf8-payload', 'user-property', 'response-topic', 'content-type', 'empty-topic', 'reason-string', 'unsubscribe-filter', 'accepted', 'rejected'], samples=10)]
 
 P['C11'] = dict(
-    level_text='Kernel: the real async_mutex (the connection lock) on the FIFO executor, differentially against a small reference model, under every sequence of lock requests (3-4 waiters with cancellation slots), unlock by the holder, per-waiter cancellation signals, cancel-all and single handler executions: never two holders, is_locked() equals the model after every step, every waiter answered exactly once - success in arrival order if the model grants, operation_aborted if cancelled while queued - never inside lock/unlock/cancel/emit. Whole client: simultaneous read failure, write failure and keep-alive timeout on one connection lead to exactly one connection attempt at a time (stub socket counts overlapping attempts), and a stale trigger does not connect again.',
+    level_text='Kernel: the real async_mutex (the connection lock) on the FIFO executor, differentially against a small reference model, under every sequence of lock requests (3-4 waiters with cancellation slots), unlock by the holder, per-waiter cancellation signals, cancel-all and single handler executions: never two holders, is_locked() equals the model after every step, every waiter answered exactly once - success in arrival order if the model grants, operation_aborted if cancelled while queued - never inside lock/unlock/cancel/emit. Whole client: simultaneous read failure, write failure and keep-alive timeout on one connection lead to exactly one connection attempt at a time (stub socket counts overlapping attempts), and a stale trigger does not connect again. Job single_flight_restart: async_run stopped through its cancellation slot (client_service::cancel() on the same service object, unlike mqtt_client::cancel()) with one trigger holding the lock and others queued, async_run called again after it completed, further triggers during the new attempt. In every whole-client job the guarded hook in async_mutex::unlock() reports its documented precondition: the connection lock is never released while it is not locked (i.e. by someone who does not hold it).',
     level_note='Bounds: kernel 3 waiters x 8 steps (quick) / 4 x 9 (thorough); whole client: one loss with up to three simultaneous triggers. Single thread.',
     assumptions=['single thread; FIFO executor'] + _pub_assume[:1],
     jobs=[dict(name='mutex_model', tu='harness/k_mutex.cpp', entry='h_mutex', engine='B', clock=True, defs_quick={'VK_STEPS': 8, 'VK_WAITERS': 3}, defs_thorough={'VK_STEPS': 9, 'VK_WAITERS': 4},
                reach=['unlock', 'waiter-cancelled', 'cancel-all', 'granted'], samples=12),
-          dict(name='single_flight', tu='harness/w_single.cpp', entry='h_single_flight', engine='B', clock=True, reach=['read-failed', 'write-failed', 'read-timeout', 'refused', 'cancelled-midway', 'reconnected-once'], samples=10)])
+          dict(name='single_flight', tu='harness/w_single.cpp', entry='h_single_flight', engine='B', clock=True, reach=['read-failed', 'write-failed', 'read-timeout', 'refused', 'cancelled-midway', 'reconnected-once'], samples=10),
+          dict(name='single_flight_restart', tu='harness/w_single.cpp', entry='h_single_flight_restart', engine='B', clock=True, reach=['two-triggers', 'restarted', 'trigger-during-attempt', 'restarted-and-connected'], samples=10)])
 
 _pid = 'harness/k_pid.cpp'
 P['C08'] = dict(
